@@ -1,0 +1,25 @@
+//go:build verif
+
+package decode
+
+import "fmt"
+
+// VerifGlobals serialises every package-level variable of this package. It
+// exists only under the verif build tag and is used by external monitors to
+// observe that no operation writes to package-level data.
+func VerifGlobals() []byte {
+	return []byte(fmt.Sprintf("%q|%q", midDescriptions, []DecodeError{
+		errInconsistentMetadataChunkLength,
+		errInvalidColor,
+		errInvalidMagicIdentifier,
+		errInvalidMetadataChunkLength,
+		errInvalidMetadataIdentifier,
+		errInvalidNumber,
+		errInvalidNumberOfMetadataChunks,
+		errInvalidSuggestedPalette,
+		errInvalidViewBox,
+		errUnsupportedDrawingOpcode,
+		errUnsupportedMetadataIdentifier,
+		errUnsupportedStylingOpcode,
+	}))
+}
